@@ -209,6 +209,31 @@ def ev_table(case, ctx):
     d = os.environ["VERIF_SCRATCH"]
     fmim = os.path.join(d, "t.mim")
     reg.save(fmim)
+    # a row with ONE undefined coordinate must not be treated as if that coordinate were 0: regions that contain
+    # (RA = 0, the row's Dec), (the row's RA, Dec = 0) and both poles
+    for rname, (rra, rdec, rrad) in dict(ra_zero=(0.0, dec0, 4.0), dec_zero=(ra0, 0.0, 4.0), north_pole=(10.0, 90.0, 4.0),
+                                         south_pole=(10.0, -90.0, 4.0), origin=(0.0, 0.0, 4.0)).items():
+        r2 = Region(maxdepth=depth)
+        r2.add_circles(np.radians(rra), np.radians(rdec), np.radians(rrad))
+        for negate in (False, True):
+            t = Table()
+            t["ra"] = np.array([np.nan, ra0, np.nan, ra0 + 20])
+            t["dec"] = np.array([dec0, np.nan, np.nan, dec0 + 10])
+            t["tag"] = np.array(["undef_ra", "undef_dec", "undef_both", "defined_outside"], dtype="U16")
+            ctx.count("mask_table_undefined")
+            sig2 = "undefined:%s,negate=%s" % (rname, negate)
+            ctx.nontrivial(sig2)
+            import copy as _copy
+            try:
+                out = MIMAS.mask_table(_copy.deepcopy(r2), t.copy(), negate=negate)
+                got = [str(x) for x in out["tag"]]
+            except Exception as e:
+                ctx.violation("mask_table raised %r (%s)" % (e, sig2), "table_raise|" + sig2)
+                continue
+            exp = [] if negate else ["undef_ra", "undef_dec", "undef_both", "defined_outside"]
+            if got != exp:
+                ctx.violation("rows with an undefined coordinate were treated as inside a region around %s: kept %r, expected %r (%s)" % (
+                    rname, got, exp, sig2), "table_undefined|" + sig2)
     for (rac, decc), negate in itertools.product([("ra", "dec"), ("RAJ2000", "DEJ2000")], [False, True]):
         t = Table()
         t[rac] = np.array([coords[n][0] for n in names], dtype=float)
